@@ -362,6 +362,16 @@ func ruleLookupFirst(c *Ctx) {
 		if !ok && why == "" {
 			why = "no nil test on the loaded codec"
 		}
+		// nothing is refused before the registry has been asked: a validation of
+		// (kind, tag) ahead of the lookup turns away codecs registered under that key
+		for _, b := range f.Blocks {
+			if r, isRet := b.Instrs[len(b.Instrs)-1].(*ssa.Return); isRet && isFailureReturnLoose(f, r) {
+				if !(load.Block() == b || load.Block().Dominates(b)) {
+					ok = false
+					why = "a failure return is reachable before registry.Load"
+				}
+			}
+		}
 	}
 	c.Oblige("X.dom.lookup", ok, f.Pos(), name, "registry.Load(typ, tag) before the kind switch",
 		"a registered codec must take precedence over the kind-based defaults: "+why, nil)
